@@ -3,7 +3,9 @@
 #include <errno.h>
 #include <poll.h>
 #include <pthread.h>
-#include <semaphore.h>
+#include <linux/futex.h>
+#include <sys/syscall.h>
+#include <atomic>
 #include <signal.h>
 #include <stdio.h>
 #include <stdlib.h>
@@ -17,16 +19,32 @@
 namespace vs {
 
 std::function<void(const std::string &)> atEnd;
+std::function<void()> atFinish;
 
 namespace {
 
+// The baton is handed over with a raw futex system call on a plain word: a hand-off is NOT a synchronisation of the program
+// under test, and under ThreadSanitizer (race pass, this file is compiled without instrumentation) it must not look like one,
+// otherwise every pair of accesses would be ordered by the scheduler and no race could ever be reported.
+struct Baton {
+    std::atomic<int> v { 0 };
+    void post() { v.store(1, std::memory_order_release); syscall(SYS_futex, reinterpret_cast<int *>(&v), FUTEX_WAKE, 1, nullptr, nullptr, 0); }
+    void wait()
+    {
+        for (;;) {
+            int one = 1;
+            if (v.compare_exchange_strong(one, 0, std::memory_order_acquire)) return;
+            syscall(SYS_futex, reinterpret_cast<int *>(&v), FUTEX_WAIT, 0, nullptr, nullptr, 0);
+        }
+    }
+};
 struct Thread {
     int id = 0;
     std::string name;
-    sem_t sem;
+    Baton sem;
     bool finished = false, terminated = false;
     std::function<bool()> enabled;
-    bool voluntary = false, canTimeout = false, timedOut = false;
+    bool voluntary = false, canTimeout = false, timedOut = false, longOp = false;
     const char *op = "start";
     std::function<void()> body;
 };
@@ -70,6 +88,7 @@ void writeAll(int fd, const std::string &s)
     if (g_ending) _exit(0);
     g_ending = true;
     g_active = false; // from here on every vqt operation is a plain one
+    if (atFinish) atFinish();
     if (atEnd) atEnd(status);
     std::ostringstream o;
     o << "STATUS " << status << "\n";
@@ -111,14 +130,25 @@ void pick(bool selfContinues)
         for (Thread *t : others) order.push_back({ t, 0, false });
         if (selfContinues && meEnabled) order.push_back({ me, others.empty() ? 0 : 1, false });
     }
-    // timed waits: a blocked thread whose wait has a timeout may be resumed by it — free when nothing else can run, else a deviation
+    // timed waits: a blocked thread whose wait has a timeout may be resumed by it - free when nothing else can run, else a
+    // deviation. TIME MODEL: seconds pass only while every other thread is blocked, asleep or inside an operation of arbitrary
+    // duration (a harness handler's yield); a thread that is merely preempted between two ordinary operations will run again within
+    // microseconds, so a multi-second timeout cannot expire "during a preemption".
     {
         bool nothing = order.empty();
         for (Thread *t : T) {
             if (t->finished || t->terminated || !t->canTimeout) continue;
             if (t == me && !selfContinues) continue;
             bool en = t->enabled ? t->enabled() : true;
-            if (!en) order.push_back({ t, nothing ? 0 : 1, true });
+            if (en) continue;
+            bool quiescent = true;
+            for (Thread *o : T) {
+                if (o == t || o->finished || o->terminated) continue;
+                if (o == me && !selfContinues) continue;
+                bool oen = o->enabled ? o->enabled() : true;
+                if (oen && !o->voluntary && !o->longOp) { quiescent = false; break; }
+            }
+            if (nothing || quiescent) order.push_back({ t, nothing ? 0 : 1, true });
         }
     }
     if (order.empty()) {
@@ -147,8 +177,8 @@ void pick(bool selfContinues)
     if (g_verbose) fprintf(stderr, "  step %zu: T%d at %s -> T%d (%s)%s [alts %d]\n", g_step - 1, me ? me->id : -1, me ? me->op : "-", a.t->id, a.t->op, a.timeout ? " TIMEOUT" : "", (int)order.size());
     if (a.t != me) {
         Thread *self = me;
-        sem_post(&a.t->sem);
-        if (selfContinues) { while (sem_wait(&self->sem) != 0 && errno == EINTR) { } }
+        a.t->sem.post();
+        if (selfContinues) self->sem.wait();
     }
 }
 
@@ -156,7 +186,7 @@ void *threadMain(void *arg)
 {
     Thread *t = (Thread *)arg;
     me = t;
-    while (sem_wait(&t->sem) != 0 && errno == EINTR) { }
+    t->sem.wait();
     t->op = "run";
     t->body();
     t->finished = true;
@@ -180,7 +210,6 @@ int spawn(std::function<void()> body, const char *name)
     t->id = (int)T.size();
     t->name = name;
     t->body = std::move(body);
-    sem_init(&t->sem, 0, 0);
     T.push_back(t);
     pthread_t pt;
     pthread_attr_t at;
@@ -194,17 +223,18 @@ int spawn(std::function<void()> body, const char *name)
 bool isFinished(int tid) { return tid >= 0 && tid < (int)T.size() && (T[tid]->finished || T[tid]->terminated); }
 void markTerminated(int tid) { if (tid >= 0 && tid < (int)T.size()) T[tid]->terminated = true; }
 
-bool point(const char *op, std::function<bool()> enabled, bool voluntary, bool canTimeout)
+bool point(const char *op, std::function<bool()> enabled, bool voluntary, bool canTimeout, bool longOp)
 {
     if (!g_active || !me) return false;
     me->op = op;
     me->enabled = std::move(enabled);
     me->voluntary = voluntary;
     me->canTimeout = canTimeout;
+    me->longOp = longOp;
     me->timedOut = false;
     pick(true);
     bool to = me->timedOut;
-    me->enabled = nullptr; me->voluntary = false; me->canTimeout = false; me->timedOut = false;
+    me->enabled = nullptr; me->voluntary = false; me->canTimeout = false; me->timedOut = false; me->longOp = false;
     return to;
 }
 
@@ -239,7 +269,7 @@ Exec runOne(const std::function<void()> &body, const std::vector<int> &prefix, c
         g_outFd = fds[1];
         g_prefix = prefix; g_step = 0; g_trace.clear(); g_report.clear(); g_viols.clear(); g_sleeps = g_sleepsAtProgress = 0;
         g_stepLimit = opt.stepLimit; g_verbose = opt.verbose;
-        Thread *t0 = new Thread; t0->id = 0; t0->name = "main"; sem_init(&t0->sem, 0, 0);
+        Thread *t0 = new Thread; t0->id = 0; t0->name = "main";
         T.clear(); T.push_back(t0); me = t0;
         g_active = true;
         body();
